@@ -57,7 +57,7 @@ namespace BitSerializer::MsgPack::Detail
 	class CMsgPackStreamReader final : public IMsgPackReader
 	{
 	public:
-		CMsgPackStreamReader(std::istream& inputStream, const SerializationOptions& serializationOptions) noexcept;
+		CMsgPackStreamReader(std::istream& inputStream, const SerializationOptions& serializationOptions);
 
 		[[nodiscard]] size_t GetPosition() const noexcept override {
 			return mBinaryStreamReader.GetPosition();
